@@ -6,7 +6,7 @@ from tokutil import *  # noqa
 from protocol import from_real
 
 ID = "C03"
-LEAN_MODULE = ["SCoda.Props.C01", "SCoda.Props.C01b", "SCoda.Props.C03b", "SCoda.Props.C10", "SCoda.Props.C03c", "SCoda.Props.TokTie"]
+LEAN_MODULE = ["SCoda.Props.C01", "SCoda.Props.C01b", "SCoda.Props.C03b", "SCoda.Props.C10", "SCoda.Props.C03c", "SCoda.Props.TokTie", "SCoda.Props.C03e"]
 LEVEL = "proof"
 CLAUSES = [
     ("two consecutive calls threading the state emit (notes and bar ends) exactly what one call on the joined events emits; "
@@ -31,11 +31,13 @@ CLAUSES = [
      ["SCoda.C01.call_end", "SCoda.C01.call_end_tokenise", "SCoda.C01.foldClock_cur", "SCoda.C01.call_stalls_on_barline"]),
     ("TIE BY TRANSLATION, tokeniser: MultiTrackLargeVocabularyNotelikeTokeniser is re-translated statement by statement on every run (Gen/TokFns.lean, tools/py2lean_tok.py: __init__, _construct_dictionary, tokenise with its closure _apply_rest as a fuelled loop, detokenise, get_info, encode, decode; f-strings as string concatenation, dicts as association lists, floats as exact rationals) and each translation is proved equal to the hand model the theorems above are about, on rendered token strings: a call with a state dictionary is tokeniseCore started from the state read out of the dictionary, and writes the model's final state back into it; a call without one starts from the initial state",
      ["SCoda.TokTie.tokenise_eq", "SCoda.TokTie.tokenise_eq'", "SCoda.TokTie.tokenise_fresh", "SCoda.TokTie.tokenise_fresh'", "SCoda.TokTie.tokenise_none", "SCoda.TokTie.stOfDict_nil", "SCoda.TokTie.tokenise_wrong_length", "SCoda.TokTie.tokenise_zero_denominator"]),
+    ("glue to the real bars (audit A1 (ii)): for bars returned by sequences_split_bars, what the tokeniser extracts from any run [lo,hi) of them (Bar.to_sequence per track, set_channel, merge, interleaved pairings), cut at the cumulative bar lengths, is a well-formed whole-bar chunk (BarsOk after any running bar length: onsets in time order inside their bar, signatures only on bar lines and equal to the bar's own, every change of bar length announced by a signature event) with one bar per real bar carrying that bar's signature, and laid end to end it is exactly the extracted event list — provided the meta track's signatures are positive (input-level SigsPos) and every bar sequence of the run is a good track on its own (on its track's channel well-formed, no zero-length note; decidable, about the bars); for one-bar runs this is the full glue statement. The unrestricted statement (C03c.extract_wholebars_statement) is refuted: a zero-length note in one bar swallows a later note of the same pitch when the bars are merged in one run but not bar by bar (replayed on the implementation: same output; known finding D18/D18b). NOT proved: for runs of >= 2 bars, that the cut bars have bar by bar the same note events (up to order) as the one-bar runs (SameNotes; fuzzed, 0 failures in 17 000 runs)",
+     ["SCoda.C03e.extract_wholebars_statement_false", "SCoda.C03e.d18_facts", "SCoda.C03e.extract_run", "SCoda.C03e.extract_wholebars_bars", "SCoda.C03e.extract_wholebars_partial", "SCoda.C03e.extract_wholebars_onebar", "SCoda.C03e.bars_pos"]),
 ]
 RULE = ("valid pieces (1-3 tracks, 2-6 bars, signature changes, empty bars) split into bars by sequences_split_bars, regrouped "
         "by random partitions (thorough: all 2^(bars-1) partitions up to 6 bars) x sampled configurations; "
         "non-trivial = at least 2 chunks and at least 2 notes")
-ASSUMPTIONS = ["NOT proved (kept as `def C03c.extract_wholebars_statement`, kernel-checked on a 4-bar 2-track example and fuzzed on the implementation): the bars produced by splitBars and merged by extract form a BarsOk chunk with the same notes per bar as the per-bar runs; the literal reading 'extract of the concatenation = chunks laid end to end' is false (repeated signatures and cap messages are dropped, simultaneous notes of different tracks may swap)",
+ASSUMPTIONS = ["NOT proved: for runs of >= 2 real bars, that the cut bars have bar by bar the same note events (up to order) as the one-bar runs (SameNotes of `C03c.extract_wholebars_statement`, which as stated is refuted by a zero-length note: C03e.extract_wholebars_statement_false; fuzzed on the implementation, 0 failures in 17 000 runs); and that bar sequences built from tracks that are well-formed, free of zero-length notes and on one channel satisfy the bar-level TrackGood hypothesis of C03e.extract_wholebars_partial. Proved (C03e): the BarsOk chunk shape, the signatures, the exact laid-out event list for every run, and the full statement for one-bar runs",
                "models: SCoda.tokeniseCore with explicit carried state, SCoda.splitBars, SCoda.barsToSeq; every call of every "
                "partition is compared separately (its state in, tokens and state out)"]
 
